@@ -39,6 +39,7 @@ struct UfoSpec {
     layers: Vec<LayerSpec>,
     poison: Vec<(usize, usize)>, // (layer, glyph): gets a public.objectLibs lib key after load
     params: String,
+    saves: Vec<&'static str>, // further save steps in the same process, see `extra_saves`
     script: Vec<String>, // JSON arrays: edits applied through the public API after loading, before saving
     legacy: bool, // formatVersion 2 with kerning groups named like glyphs / component bases
 }
@@ -247,7 +248,7 @@ fn gen_ufo(rng: &mut Rng, sh: &Shape) -> UfoSpec {
         "layers={} names={} density={} comp_pool={} max_comps={} broken={} dups={} poison={} stale={} cold_base={} legacy={}",
         sh.layers, sh.names, sh.density, sh.comp_pool, sh.max_comps, sh.broken, sh.dups, sh.poison, sh.stale, sh.cold_base, sh.legacy
     );
-    UfoSpec { layers, poison, params, script: vec![], legacy: sh.legacy }
+    UfoSpec { layers, poison, params, saves: vec![], script: vec![], legacy: sh.legacy }
 }
 
 /// A small edit script through the public container API, the same for both builds: insert_glyph,
@@ -617,6 +618,18 @@ fn gen(a: &Args) {
         if k % 2 == 0 {
             u.script = gen_script(&mut r, &u);
         }
+        // several saves in one process (the thread pool and anything kept per thread survive)
+        if !u.poison.is_empty() {
+            // the first save fails (objectLibs key); repair; the second must succeed
+            u.saves = vec!["unpoison", "again"];
+        } else if k % 3 == 0 {
+            // a glyph whose glif path is too long under a very deep target: that save fails with an
+            // I/O error in the middle of writing the glifs; the next save, elsewhere, must succeed
+            u.script.push(format!("[\"insert\",0,{},{}]", jstr(&format!("{}{}", "q".repeat(120), k)), 7900));
+            u.saves = vec!["deep", "again"];
+        } else if k % 3 == 1 {
+            u.saves = vec!["again", "again"];
+        }
         let dir = root.join(format!("{:03}", k));
         write_ufo(&mut r, &u, &dir);
         write_sidecar(&u, &root, k, a.seed);
@@ -660,8 +673,8 @@ fn write_sidecar(u: &UfoSpec, root: &Path, k: usize, seed: u64) {
     write_file(
         &root.join(format!("{:03}.json", k)),
         &format!(
-            "{{\"table\":[{}],\"poison\":[{}],\"script\":[{}],\"params\":{},\"seed\":{},\"glyphs\":{},\"broken\":{},\"dup_entries\":{},\"legacy\":{}}}",
-            tb.join(","), poison.join(","), u.script.join(","), jstr(&u.params), seed, ng, nbroken, ndup, u.legacy
+            "{{\"table\":[{}],\"poison\":[{}],\"script\":[{}],\"saves\":[{}],\"params\":{},\"seed\":{},\"glyphs\":{},\"broken\":{},\"dup_entries\":{},\"legacy\":{}}}",
+            tb.join(","), poison.join(","), u.script.join(","), u.saves.iter().map(|x| jstr(x)).collect::<Vec<_>>().join(","), jstr(&u.params), seed, ng, nbroken, ndup, u.legacy
         ),
     );
     let maxl = u.layers.iter().map(|l| l.glyphs.len()).max().unwrap_or(0);
@@ -817,7 +830,118 @@ fn observe(dir: &Path, side: &serde_json::Value, save_to: &Path) -> String {
         }
     }
     let _ = std::fs::remove_dir_all(save_to);
+    extra_saves(&mut font, side, save_to, &mut o);
     o
+}
+
+/// a directory whose path is exactly `total` bytes long, below `base` (created)
+fn deep_dir(base: &Path, total: usize) -> Option<PathBuf> {
+    let mut p = base.to_path_buf();
+    loop {
+        let have = p.as_os_str().len();
+        if have + 2 > total {
+            return None;
+        }
+        let room = total - have - 1;
+        if room <= 200 {
+            p.push("d".repeat(room));
+            break;
+        }
+        // leave at least 2 bytes for the last component
+        let step = if room - 200 < 2 { 198 } else { 200 };
+        p.push("d".repeat(step));
+    }
+    std::fs::create_dir_all(&p).ok()?;
+    Some(p)
+}
+
+/// further saves of the same font in the same process:
+///   "unpoison"  remove the objectLibs keys that made the first save fail
+///   "deep"      save below a directory so deep that the glif of a long-named glyph exceeds
+///               PATH_MAX while contents.plist and the short glifs still fit (fails while the
+///               glifs are being written)
+///   "again"     save to another directory; tree and reloaded font are listed
+fn extra_saves(font: &mut Font, side: &serde_json::Value, save_to: &Path, o: &mut String) {
+    let steps: Vec<String> = side["saves"].as_array().map(|a| a.iter().filter_map(|x| x.as_str().map(String::from)).collect()).unwrap_or_default();
+    for (i, st) in steps.iter().enumerate() {
+        match st.as_str() {
+            "unpoison" => {
+                if let Some(ps) = side["poison"].as_array() {
+                    for p in ps {
+                        let (ln, gn) = (p[0].as_str().unwrap_or(""), p[1].as_str().unwrap_or(""));
+                        if let Some(g) = font.layers.get_mut(ln).and_then(|l| l.get_glyph_mut(gn)) {
+                            g.lib.remove("public.objectLibs");
+                        }
+                    }
+                }
+                let _ = writeln!(o, "STEP {} unpoison", i);
+            }
+            "deep" => {
+                let top = save_to.with_file_name(format!("deep{}", i));
+                let _ = std::fs::remove_dir_all(&top);
+                let _ = std::fs::create_dir_all(&top);
+                // 4040: <dir>/x.ufo/glyphs.lN/contents.plist fits into PATH_MAX, a 125-byte glif name does not
+                match deep_dir(&top, 4040 - "/x.ufo".len()) {
+                    None => {
+                        let _ = writeln!(o, "STEP {} deep skipped", i);
+                    }
+                    Some(d) => {
+                        let target = d.join("x.ufo");
+                        let r = catch(|| font.save(&target));
+                        let status = match &r {
+                            Err(_) => "panic".to_string(),
+                            Ok(Err(e)) => {
+                                let dbg = format!("{:?}", e);
+                                let short = dbg.replace('\n', " ").replace(&"d".repeat(198), "D").replace(&"q".repeat(120), "Q");
+                                let _ = writeln!(o, "ERRINFO {} {}", err_variant(&dbg), short.chars().take(600).collect::<String>());
+                                "err".to_string()
+                            }
+                            Ok(Ok(())) => "ok".to_string(),
+                        };
+                        let _ = writeln!(o, "STEP {} deep {}", i, status);
+                    }
+                }
+                let _ = std::fs::remove_dir_all(&top);
+            }
+            _ => {
+                let target = save_to.with_file_name(format!("again{}", i));
+                let _ = std::fs::remove_dir_all(&target);
+                match catch(|| font.save(&target)) {
+                    Err(_) => {
+                        let _ = writeln!(o, "STEP {} again panic", i);
+                    }
+                    Ok(Err(e)) => {
+                        let dbg = format!("{:?}", e);
+                        let _ = writeln!(o, "STEP {} again err\nERRINFO {} {}", i, err_variant(&dbg), dbg.replace('\n', " ").chars().take(300).collect::<String>());
+                    }
+                    Ok(Ok(())) => {
+                        let _ = writeln!(o, "STEP {} again ok", i);
+                        let mut t = vec![];
+                        walk(&target, Path::new(""), &mut t);
+                        for (p, n, h) in t {
+                            let _ = writeln!(o, "TREE2 {} {} {:016x} {}", i, n, h, p);
+                        }
+                        match catch(|| Font::load(&target)) {
+                            Err(_) => o.push_str("RELOAD2 panic\n"),
+                            Ok(Err(e)) => {
+                                let _ = writeln!(o, "RELOAD2 {} err\nERRINFO {}", i, err_variant(&format!("{:?}", e)));
+                            }
+                            Ok(Ok(f2)) => {
+                                for l in f2.layers.iter() {
+                                    let mut h = String::new();
+                                    for g in l.iter() {
+                                        let _ = write!(h, "{:?};", g);
+                                    }
+                                    let _ = writeln!(o, "RELOAD2 {} ok {:?} n={} {:016x}", i, l.name(), l.len(), fnv(h.as_bytes()));
+                                }
+                            }
+                        }
+                    }
+                }
+                let _ = std::fs::remove_dir_all(&target);
+            }
+        }
+    }
 }
 
 /// one operation of the edit script; the outcome as text
